@@ -38,8 +38,9 @@ def node_st(n):
         st.just({"k": "final"}),
         st.tuples(st.integers(0, n - 1), st.sampled_from([30, 31]), st.booleans()).map(
             lambda t: {"k": "redir", "to": t[0], "status": t[1], "port": t[2]}),
-        st.tuples(st.integers(0, n - 1), st.sampled_from([30, 31]), st.booleans()).map(
+        st.tuples(st.integers(0, n - 1), st.integers(30, 39), st.booleans()).map(
             lambda t: {"k": "redir", "to": t[0], "status": t[1], "port": t[2]}),
+        st.sampled_from([{"k": "drop", "how": "close"}, {"k": "drop", "how": "reset"}, {"k": "drop", "how": "stall"}]),
         st.sampled_from(ODD).map(lambda m: {"k": "odd", "meta": m, "status": 30}),
     )
 
@@ -56,8 +57,8 @@ def case_st(draw):
 def enum_small(tier):
     N = 2 if tier == "quick" else 3
     for n in range(1, N + 1):
-        kinds = [{"k": "final"}] + [{"k": "redir", "to": j, "status": 30, "port": False} for j in range(n)] + \
-                [{"k": "odd", "meta": m, "status": 30} for m in ("http://a/x", "/relative", "")]
+        kinds = [{"k": "final"}] + [{"k": "redir", "to": j, "status": 30 if j else 37, "port": False} for j in range(n)] + \
+                [{"k": "odd", "meta": m, "status": 30} for m in ("http://a/x", "/relative", "")] + [{"k": "drop", "how": "close"}]
         for nodes in itertools.product(kinds, repeat=n):
             for maxr in range(0, 4):
                 for follow in (True, False):
@@ -74,6 +75,8 @@ def walk(case):
         nd = nodes[cur]
         if nd["k"] == "final":
             return ("final", cur, path)
+        if nd["k"] == "drop":
+            return ("error", "peer-dropped", path)
         if nd["k"] == "odd":
             return ("odd", cur, path)
         if followed >= maxr:
@@ -110,6 +113,8 @@ def run_case(case: dict):
                     return b"51 no such node\r\n"
                 if nd["k"] == "final":
                     return f"20 text/gemini\r\nBODY-n{i}".encode()
+                if nd["k"] == "drop":
+                    return b""  # the peer closes without a header
                 if nd["k"] == "redir":
                     return f"{nd['status']} {url_of(nd['to'], nd['port'])}\r\n".encode()
                 return f"{nd['status']} {nd['meta']}\r\n".encode()
@@ -161,7 +166,11 @@ def run_case(case: dict):
         nd = case["nodes"][case["start"]]
         exp = {"final": ("resp", 20, "text/gemini", f"BODY-n{case['start']}"),
                "redir": ("resp", nd.get("status"), url_of(nd.get("to", 0), nd.get("port", False)), None),
-               "odd": ("resp", nd.get("status"), nd.get("meta"), None)}[nd["k"]]
+               "odd": ("resp", nd.get("status"), nd.get("meta"), None), "drop": None}[nd["k"]]
+        if exp is None:
+            if res[0] == "resp":
+                return viol("response-from-dropped-connection", f"{res}", **info)
+            return ok(**info)
         if res != exp:
             return viol("follow-off-response-altered", f"expected {exp}, got {res}", **info)
         return ok(**info)
